@@ -2,8 +2,10 @@
    succeeded; a failing run leaves the output path alone.
    Property theorems only; proofs are in Proofs/Pipeline.v (generic) and
    Proofs/StagesC12.v (facts about the stage table generated from main.py). *)
-From Coq Require Import String List Bool Arith.
-From PV Require Import Model.Pipeline Proofs.Pipeline Generated.Stages Proofs.StagesC12.
+From Coq Require Import String List Bool Arith ZArith Permutation.
+From PV Require Import Model.ForceField Model.States Proofs.States.
+From PV Require Import Model.Pipeline Proofs.Pipeline Generated.Stages Proofs.StagesC12 Proofs.PipelineC12.
+From PV Require Generated.States Generated.FF_AMBER Generated.StatesFF_AMBER Generated.FF_CHARMM Generated.StatesFF_CHARMM Generated.FF_PARSE Generated.StatesFF_PARSE Generated.FF_PEOEPB Generated.StatesFF_PEOEPB Generated.FF_SWANSON Generated.StatesFF_SWANSON Generated.FF_TYL06 Generated.StatesFF_TYL06.
 Import ListNotations.
 Local Open Scope string_scope.
 
@@ -15,7 +17,7 @@ Theorem C12_no_partial_output :
     forall (flt : nat -> fault) (c : C) (f : fstate C),
       ((exists j, j < writer_index ds /\ faulty (flt j) = true) ->
          snd (frun ds 0 flt c f) = f /\ exists i, fst (frun ds 0 flt c f) = Raised i)
-      /\ ((forall k, k < length ds -> faulty (flt k) = false) ->
+      /\ ((forall k, k < List.length ds -> faulty (flt k) = false) ->
          frun ds 0 flt c f = (Finished, Complete c)).
 Proof. exact no_partial_output. Qed.
 
@@ -44,8 +46,8 @@ Theorem C12_fault_after_writer :
   forall (C : Type) (ds : list sdesc), c12_obligation ds = true ->
     forall (flt : nat -> fault) (c : C) (f : fstate C),
       (forall k, k <= writer_index ds -> faulty (flt k) = false) ->
-      (exists j, writer_index ds < j < length ds /\ faulty (flt j) = true) ->
-      exists i, writer_index ds < i < length ds /\ frun ds 0 flt c f = (Raised i, Complete c).
+      (exists j, writer_index ds < j < List.length ds /\ faulty (flt j) = true) ->
+      exists i, writer_index ds < i < List.length ds /\ frun ds 0 flt c f = (Raised i, Complete c).
 Proof. exact fault_after_writer. Qed.
 
 (* the obligation holds for the table generated from the current main.py *)
@@ -59,16 +61,175 @@ Theorem C12_generated_guard_before_writer :
   /\ all_before "is_repairable" "print_pqr" stages = true
   /\ all_before "check_files" "print_pqr" stages = true
   /\ all_before "check_options" "print_pqr" stages = true
-  /\ all_before "get_molecule" "print_pqr" stages = true.
+  /\ all_before "get_molecule" "print_pqr" stages = true
+  (* the guard sees the FINAL charges: no Compute stage follows it, and the summing loop comes
+     after apply_force_field AND after the --ligand block (loop_residue_tot_charge, assign_matched_atoms) *)
+  /\ guard_is_last_compute stages = true
+  /\ all_before "apply_force_field" "raise_if_charge_err" stages = true
+  /\ all_before "loop_residue_tot_charge" "loop_residue_charge" stages = true
+  /\ all_before "assign_matched_atoms" "loop_residue_charge" stages = true
+  /\ all_before "loop_residue_charge" "raise_if_charge_err" stages = true.
 Proof. exact generated_guard_before_writer. Qed.
+
+Example C12_guard_order_nonvacuous :
+  guard_is_last_compute
+    [mk_sdesc "apply_force_field" "non_trivial" Compute [] [] [] false false;
+     mk_sdesc "loop_residue_tot_charge" "non_trivial" Compute [] [] [] false false;
+     mk_sdesc "raise_if_charge_err" "non_trivial" Compute [] [] [] false false;
+     mk_sdesc "apply_name_scheme" "non_trivial" Rename [] [] [] false false;
+     mk_sdesc "print_pqr" "main_driver" Output [] [] [("main.print_pqr", ["output_pqr"])] true false] = true
+  /\ guard_is_last_compute
+    [mk_sdesc "apply_force_field" "non_trivial" Compute [] [] [] false false;
+     mk_sdesc "raise_if_charge_err" "non_trivial" Compute [] [] [] false false;
+     mk_sdesc "loop_residue_tot_charge" "non_trivial" Compute [] [] [] false false;
+     mk_sdesc "print_pqr" "main_driver" Output [] [] [("main.print_pqr", ["output_pqr"])] true false] = false
+  /\ guard_is_last_compute [mk_sdesc "print_pqr" "main_driver" Output [] [] [] true false] = false.
+Proof. exact guard_order_nonvacuous. Qed.
+
+(* meaning of guard_is_last_compute, for ALL stage lists: every stage behind the (last) guard
+   stage is not a Compute stage *)
+Theorem C12_guard_is_last_compute_spec : forall ds,
+  guard_is_last_compute ds = true ->
+  exists pre g post, ds = (pre ++ g :: post)%list /\ sd_name g = "raise_if_charge_err"
+    /\ forall d, In d post -> sd_kind d <> Compute.
+Proof. exact guard_is_last_compute_spec. Qed.
 
 Theorem C12_generated_no_partial_output :
   forall (C : Type) flt (c : C) f,
     ((exists j, j < writer_index stages /\ faulty (flt j) = true) ->
        snd (frun stages 0 flt c f) = f /\ exists i, fst (frun stages 0 flt c f) = Raised i)
-    /\ ((forall k, k < length stages -> faulty (flt k) = false) ->
+    /\ ((forall k, k < List.length stages -> faulty (flt k) = false) ->
        frun stages 0 flt c f = (Finished, Complete c)).
 Proof. exact generated_no_partial_output. Qed.
+
+
+(* ------------------------------------------------------------------ *)
+(* SUCCESS HALF, the provable part.
+   "A structure made of complete standard residues in parameterised states cannot be
+   rejected by the integrality guard": for ALL residue lists whose units are amino residues
+   in non-excepted, fully parameterised rows of the state table, waters and complete strands
+   (in any order), the total main.non_trivial hands to noninteger_charge is an integer
+   multiple of SCALE, the guard does not raise, and any float total within TOL passes.
+   (C02's guard_never_fires, restated here per built-in force field; units value * 10^8.)
+
+   Combined with the stage model: on the stage table generated from the current main.py,
+   if the structure is table-consistent, the guard stage faults exactly when the modelled
+   guard raises and NO OTHER stage faults, the run reaches (Finished, Complete c).
+   The hypothesis "no other stage faults" is what remains EXPLORATION: parsing, repair,
+   debumping, hydrogen optimisation, pKa and parameter lookup can still raise on geometry
+   or data and are not modelled (harness: builder structures x force fields). *)
+Theorem C12_guard_never_fires_AMBER : forall units qs,
+  Forall (unit_valid StatesFF_AMBER.built StatesFF_AMBER.known_exceptions States.arows States.nrows States.wat_id States.wat_atoms) units ->
+  Permutation qs (List.concat (map unit_charges units)) ->
+  (exists k, guard_total qs = (k * SCALE)%Z) /\
+  guard_raises qs = false /\
+  (forall t, (Z.abs (t - guard_total qs) <= TOL)%Z -> guard_ok t = true).
+Proof. exact (guard_never_fires _ _ _ _ _ _ StatesFF_AMBER.state_exact StatesFF_AMBER.strand_exact StatesFF_AMBER.round4_facts StatesFF_AMBER.water_neutral). Qed.
+
+Theorem C12_table_consistent_run_completes_AMBER :
+  forall (C : Type) units qs (flt : nat -> fault) (c : C) (f : fstate C),
+    Forall (unit_valid StatesFF_AMBER.built StatesFF_AMBER.known_exceptions States.arows States.nrows States.wat_id States.wat_atoms) units ->
+    Permutation qs (List.concat (map unit_charges units)) ->
+    (forall g, In g guard_stages -> faulty (flt g) = guard_raises qs) ->
+    (forall k, k < List.length stages -> ~ In k guard_stages -> faulty (flt k) = false) ->
+    frun stages 0 flt c f = (Finished, Complete c).
+Proof. exact run_completes_AMBER. Qed.
+Theorem C12_guard_never_fires_CHARMM : forall units qs,
+  Forall (unit_valid StatesFF_CHARMM.built StatesFF_CHARMM.known_exceptions States.arows States.nrows States.wat_id States.wat_atoms) units ->
+  Permutation qs (List.concat (map unit_charges units)) ->
+  (exists k, guard_total qs = (k * SCALE)%Z) /\
+  guard_raises qs = false /\
+  (forall t, (Z.abs (t - guard_total qs) <= TOL)%Z -> guard_ok t = true).
+Proof. exact (guard_never_fires _ _ _ _ _ _ StatesFF_CHARMM.state_exact StatesFF_CHARMM.strand_exact StatesFF_CHARMM.round4_facts StatesFF_CHARMM.water_neutral). Qed.
+
+Theorem C12_table_consistent_run_completes_CHARMM :
+  forall (C : Type) units qs (flt : nat -> fault) (c : C) (f : fstate C),
+    Forall (unit_valid StatesFF_CHARMM.built StatesFF_CHARMM.known_exceptions States.arows States.nrows States.wat_id States.wat_atoms) units ->
+    Permutation qs (List.concat (map unit_charges units)) ->
+    (forall g, In g guard_stages -> faulty (flt g) = guard_raises qs) ->
+    (forall k, k < List.length stages -> ~ In k guard_stages -> faulty (flt k) = false) ->
+    frun stages 0 flt c f = (Finished, Complete c).
+Proof. exact run_completes_CHARMM. Qed.
+Theorem C12_guard_never_fires_PARSE : forall units qs,
+  Forall (unit_valid StatesFF_PARSE.built StatesFF_PARSE.known_exceptions States.arows States.nrows States.wat_id States.wat_atoms) units ->
+  Permutation qs (List.concat (map unit_charges units)) ->
+  (exists k, guard_total qs = (k * SCALE)%Z) /\
+  guard_raises qs = false /\
+  (forall t, (Z.abs (t - guard_total qs) <= TOL)%Z -> guard_ok t = true).
+Proof. exact (guard_never_fires _ _ _ _ _ _ StatesFF_PARSE.state_exact StatesFF_PARSE.strand_exact StatesFF_PARSE.round4_facts StatesFF_PARSE.water_neutral). Qed.
+
+Theorem C12_table_consistent_run_completes_PARSE :
+  forall (C : Type) units qs (flt : nat -> fault) (c : C) (f : fstate C),
+    Forall (unit_valid StatesFF_PARSE.built StatesFF_PARSE.known_exceptions States.arows States.nrows States.wat_id States.wat_atoms) units ->
+    Permutation qs (List.concat (map unit_charges units)) ->
+    (forall g, In g guard_stages -> faulty (flt g) = guard_raises qs) ->
+    (forall k, k < List.length stages -> ~ In k guard_stages -> faulty (flt k) = false) ->
+    frun stages 0 flt c f = (Finished, Complete c).
+Proof. exact run_completes_PARSE. Qed.
+Theorem C12_guard_never_fires_PEOEPB : forall units qs,
+  Forall (unit_valid StatesFF_PEOEPB.built StatesFF_PEOEPB.known_exceptions States.arows States.nrows States.wat_id States.wat_atoms) units ->
+  Permutation qs (List.concat (map unit_charges units)) ->
+  (exists k, guard_total qs = (k * SCALE)%Z) /\
+  guard_raises qs = false /\
+  (forall t, (Z.abs (t - guard_total qs) <= TOL)%Z -> guard_ok t = true).
+Proof. exact (guard_never_fires _ _ _ _ _ _ StatesFF_PEOEPB.state_exact StatesFF_PEOEPB.strand_exact StatesFF_PEOEPB.round4_facts StatesFF_PEOEPB.water_neutral). Qed.
+
+Theorem C12_table_consistent_run_completes_PEOEPB :
+  forall (C : Type) units qs (flt : nat -> fault) (c : C) (f : fstate C),
+    Forall (unit_valid StatesFF_PEOEPB.built StatesFF_PEOEPB.known_exceptions States.arows States.nrows States.wat_id States.wat_atoms) units ->
+    Permutation qs (List.concat (map unit_charges units)) ->
+    (forall g, In g guard_stages -> faulty (flt g) = guard_raises qs) ->
+    (forall k, k < List.length stages -> ~ In k guard_stages -> faulty (flt k) = false) ->
+    frun stages 0 flt c f = (Finished, Complete c).
+Proof. exact run_completes_PEOEPB. Qed.
+Theorem C12_guard_never_fires_SWANSON : forall units qs,
+  Forall (unit_valid StatesFF_SWANSON.built StatesFF_SWANSON.known_exceptions States.arows States.nrows States.wat_id States.wat_atoms) units ->
+  Permutation qs (List.concat (map unit_charges units)) ->
+  (exists k, guard_total qs = (k * SCALE)%Z) /\
+  guard_raises qs = false /\
+  (forall t, (Z.abs (t - guard_total qs) <= TOL)%Z -> guard_ok t = true).
+Proof. exact (guard_never_fires _ _ _ _ _ _ StatesFF_SWANSON.state_exact StatesFF_SWANSON.strand_exact StatesFF_SWANSON.round4_facts StatesFF_SWANSON.water_neutral). Qed.
+
+Theorem C12_table_consistent_run_completes_SWANSON :
+  forall (C : Type) units qs (flt : nat -> fault) (c : C) (f : fstate C),
+    Forall (unit_valid StatesFF_SWANSON.built StatesFF_SWANSON.known_exceptions States.arows States.nrows States.wat_id States.wat_atoms) units ->
+    Permutation qs (List.concat (map unit_charges units)) ->
+    (forall g, In g guard_stages -> faulty (flt g) = guard_raises qs) ->
+    (forall k, k < List.length stages -> ~ In k guard_stages -> faulty (flt k) = false) ->
+    frun stages 0 flt c f = (Finished, Complete c).
+Proof. exact run_completes_SWANSON. Qed.
+Theorem C12_guard_never_fires_TYL06 : forall units qs,
+  Forall (unit_valid StatesFF_TYL06.built StatesFF_TYL06.known_exceptions States.arows States.nrows States.wat_id States.wat_atoms) units ->
+  Permutation qs (List.concat (map unit_charges units)) ->
+  (exists k, guard_total qs = (k * SCALE)%Z) /\
+  guard_raises qs = false /\
+  (forall t, (Z.abs (t - guard_total qs) <= TOL)%Z -> guard_ok t = true).
+Proof. exact (guard_never_fires _ _ _ _ _ _ StatesFF_TYL06.state_exact StatesFF_TYL06.strand_exact StatesFF_TYL06.round4_facts StatesFF_TYL06.water_neutral). Qed.
+
+Theorem C12_table_consistent_run_completes_TYL06 :
+  forall (C : Type) units qs (flt : nat -> fault) (c : C) (f : fstate C),
+    Forall (unit_valid StatesFF_TYL06.built StatesFF_TYL06.known_exceptions States.arows States.nrows States.wat_id States.wat_atoms) units ->
+    Permutation qs (List.concat (map unit_charges units)) ->
+    (forall g, In g guard_stages -> faulty (flt g) = guard_raises qs) ->
+    (forall k, k < List.length stages -> ~ In k guard_stages -> faulty (flt k) = false) ->
+    frun stages 0 flt c f = (Finished, Complete c).
+Proof. exact run_completes_TYL06. Qed.
+(* the guard stage exists in the generated table and sits in front of the writer; were it
+   to fire, the run raises and the file state is untouched *)
+Theorem C12_guard_stage_in_table :
+  guard_stages <> [] /\ forall g, In g guard_stages -> g < writer_index stages.
+Proof. exact (conj guard_stage_exists guard_stage_before_writer). Qed.
+
+(* non-vacuity of the success statements: a table-consistent structure exists (row 0 of the
+   generated state table + a water), its guard does not raise, the guard stage exists *)
+Example C12_success_nonvacuous :
+  exists u q qs,
+    pick_amino StatesFF_AMBER.built StatesFF_AMBER.known_exceptions States.arows 0 0 = Some u
+    /\ Forall (unit_valid StatesFF_AMBER.built StatesFF_AMBER.known_exceptions States.arows States.nrows States.wat_id States.wat_atoms) [u; UWater q]
+    /\ Permutation qs (List.concat (map unit_charges [u; UWater q]))
+    /\ guard_raises qs = false
+    /\ guard_stages <> [].
+Proof. exact success_nonvacuous_AMBER. Qed.
 
 (* non-vacuity: the obligation is satisfiable by a small list and is needed -
    with a swallowing handler a failed run ends Finished with a Complete file,
@@ -96,3 +257,19 @@ Print Assumptions C12_generated_obligation.
 Print Assumptions C12_generated_guard_before_writer.
 Print Assumptions C12_generated_no_partial_output.
 Print Assumptions C12_nonvacuous.
+Print Assumptions C12_guard_never_fires_AMBER.
+Print Assumptions C12_table_consistent_run_completes_AMBER.
+Print Assumptions C12_guard_never_fires_CHARMM.
+Print Assumptions C12_table_consistent_run_completes_CHARMM.
+Print Assumptions C12_guard_never_fires_PARSE.
+Print Assumptions C12_table_consistent_run_completes_PARSE.
+Print Assumptions C12_guard_never_fires_PEOEPB.
+Print Assumptions C12_table_consistent_run_completes_PEOEPB.
+Print Assumptions C12_guard_never_fires_SWANSON.
+Print Assumptions C12_table_consistent_run_completes_SWANSON.
+Print Assumptions C12_guard_never_fires_TYL06.
+Print Assumptions C12_table_consistent_run_completes_TYL06.
+Print Assumptions C12_guard_stage_in_table.
+Print Assumptions C12_success_nonvacuous.
+Print Assumptions C12_guard_is_last_compute_spec.
+Print Assumptions C12_guard_order_nonvacuous.
